@@ -128,6 +128,10 @@ func renderD(v ssa.Value, d int) string {
 		n = strings.TrimPrefix(n, "builtin ")
 		var as []string
 		for _, a := range x.Call.Args {
+			if d >= 6 {
+				as = []string{"…"}
+				break
+			}
 			as = append(as, renderD(a, d+1))
 		}
 		if x.Call.IsInvoke() {
@@ -537,10 +541,8 @@ func (b *bctx) nonNeg(v ssa.Value, use ssa.Instruction, seen visit) bool {
 		switch x.Op {
 		case token.ADD:
 			// (phi + k) with every non-increment edge of phi >= -k  (range loops: phi starts at -1, index is phi+1)
-			if k, ok := constInt(x.Y); ok {
-				if lb, okk := b.lowerBound(x.X, visit{}); okk && lb+k >= 0 {
-					return true
-				}
+			if lb, okk := b.lowerBound(x, visit{}); okk && lb >= 0 {
+				return true
 			}
 			if b.nonNeg(x.X, use, seen) && b.nonNeg(x.Y, use, seen) {
 				return true
@@ -562,6 +564,11 @@ func (b *bctx) nonNeg(v ssa.Value, use ssa.Instruction, seen visit) bool {
 			}
 			if b.holds(use, lessFact(x.Y, x.X, false), x.X, x.Y) {
 				return true
+			}
+			if A, okA := lenOf(x.X); okA {
+				if B, okB := lenOf(x.Y); okB && b.holds(use, suffixFact(A, B), A, B) {
+					return true
+				}
 			}
 			// loop counters decremented under a `> 0` / `>= 1` guard are handled by the guard on the phi below
 		}
@@ -731,8 +738,12 @@ func (b *bctx) lowerBound(v ssa.Value, seen visit) (int64, bool) {
 			return 0, true
 		}
 	case *ssa.Call:
-		if n := calleeName(&x.Call); n == "builtin len" || n == "builtin cap" || n == "builtin copy" {
+		n := calleeName(&x.Call)
+		if n == "builtin len" || n == "builtin cap" || n == "builtin copy" {
 			return 0, true
+		}
+		if n == "strings.Index" || n == "strings.IndexByte" || n == "strings.LastIndex" || n == "strings.IndexRune" || n == "bytes.Index" {
+			return -1, true
 		}
 	case *ssa.Phi:
 		var lb int64
@@ -755,16 +766,32 @@ func (b *bctx) lowerBound(v ssa.Value, seen visit) (int64, bool) {
 		return lb, true
 	case *ssa.BinOp:
 		if x.Op == token.ADD {
-			if k, ok := constInt(x.Y); ok {
-				if l, okk := b.lowerBound(x.X, seen); okk {
-					return l + k, true
-				}
+			l1, ok1 := b.lowerBound(x.X, seen)
+			l2, ok2 := b.lowerBound(x.Y, seen)
+			if ok1 && ok2 {
+				return l1 + l2, true
 			}
 		}
 	case *ssa.Convert:
 		return b.lowerBound(x.X, seen)
 	}
 	return 0, false
+}
+
+// suffixFact: the edge establishes len(B) <= len(A) through strings.HasSuffix/HasPrefix(A, B).
+func suffixFact(A, B ssa.Value) EdgePred {
+	return func(cond ssa.Value, branch bool) bool {
+		c, br := stripNot(cond, branch)
+		call := asCall(c)
+		if call == nil || !br {
+			return false
+		}
+		n := calleeName(&call.Call)
+		if n != "strings.HasSuffix" && n != "strings.HasPrefix" {
+			return false
+		}
+		return sameVal(call.Call.Args[0], A) && sameVal(call.Call.Args[1], B)
+	}
 }
 
 // lenValues lists the SSA values len(Y) of the function with Y the same as X.
@@ -818,6 +845,9 @@ func (b *bctx) le(v, X ssa.Value, use ssa.Instruction, seen visit) bool {
 				if k, ok := constInt(x.Y); ok && k >= 0 {
 					return true
 				}
+			}
+			if Y, isLen := lenOf(x.X); isLen && sameVal(Y, X) && b.nonNeg(x.Y, use, visit{}) {
+				return true
 			}
 			// w - k <= len when w <= len and k >= 0
 			if k, ok := constInt(x.Y); ok && k >= 0 && b.le(x.X, X, use, seen) {
@@ -1087,7 +1117,7 @@ func checkBounds(c *Ctx, rule string, fns []*ssa.Function, table map[string]stri
 				}
 				what = render(x)
 				base := x.X
-				okHigh := x.High == nil || b.le(x.High, base, x, visit{})
+				okHigh := x.High == nil || (b.le(x.High, base, x, visit{}) && b.nonNeg(x.High, x, visit{}))
 				var okLow bool
 				if x.High != nil {
 					okLow = x.Low == nil || (b.nonNeg(x.Low, x, visit{}) && b.leq(x.Low, x.High, base, x))
